@@ -75,6 +75,8 @@ def gen_value(rng):
     if k == "datetime":
         tz = rng.choice([None, timezone.utc, timezone(timedelta(hours=5, minutes=30)), timezone(timedelta(hours=-14)), timezone(timedelta(minutes=1))])
         y = rng.choice([2, 999, 1970, 2024, 9998])
+        if rng.random() < 0.2:
+            return k, datetime(y, rng.randint(1, 12), rng.randint(1, 28), 0, 0, 0, 0, tzinfo=tz)      # exactly midnight, naive or aware
         return k, datetime(y, rng.randint(1, 12), rng.randint(1, 28), rng.randint(0, 23), rng.randint(0, 59), rng.randint(0, 59), rng.choice([0, 0, 1, 999999, rng.randint(0, 999999)]), tzinfo=tz)
     return k, rng.choice([timedelta(0), timedelta(seconds=1), timedelta(hours=25), timedelta(days=400, seconds=3661), timedelta(seconds=-1), timedelta(days=-2, seconds=5), timedelta(seconds=rng.randint(-10**7, 10**7))])
 
@@ -143,11 +145,21 @@ def one_record(seed):
             rec["integral"] = False if kind in ("int", "float", "decimal") else rec["integral"]   # meta numbers always come back Decimal
         else:
             if carrier == "cell":
-                if overwrite:
+                how = rng.choice(("ctor", "set_value", "value=", "typed="))
+                if how == "value=" or (how == "typed=" and kind not in ("datetime", "date", "bool", "str", "timedelta")):
+                    # the property setter (what a get_cell / modify / set_cell cycle uses)
+                    el = Cell(other) if overwrite else Cell()
+                    el.value = v
+                elif how == "typed=":
+                    # the setter named after the type
+                    el = Cell(other) if overwrite else Cell()
+                    setattr(el, {"datetime": "datetime", "date": "date", "bool": "bool", "str": "string", "timedelta": "duration"}[kind], v)
+                elif overwrite:
                     el = Cell(other)
                     el.set_value(v)
                 else:
                     el = Cell(v)
+                rec["via"] = how
                 read = lambda e: e.value  # noqa: E731
             elif carrier == "row":
                 row = Row()
